@@ -218,4 +218,20 @@ PROPS = {
         "partial": ["bfs_model_min (the (active, held, mask) breadth-first search itself) is not modelled: the search is judged through its answers (oracle)"],
         "assumptions": [],
     },
+    "C18": {
+        "lean_modules": ["StimModel.Props.C18"],
+        "areas": [
+            {"area": "explain", "n": {"quick": 400, "thorough": 8000}, "replayable": True},
+        ],
+        "rule": "noisy annotated circuits (repetition-code-like circuits with REPEAT nesting up to depth 3, TICKs, QUBIT_COORDS, SHIFT_COORDS, every measurement flavour with noise, "
+                "heralded channels, every Pauli channel type, E/ELSE chains, feedback; stabilizer-measurement circuits; random annotated circuits that are analysable), relabelled onto sparse qubit ids; "
+                "unfiltered (both reduce settings) and filtered (subset of the model with separators / cancelling pairs, plus an error no fault produces): every reported location is resolved to one instruction "
+                "occurrence of the unrolled circuit, the reported Pauli product is injected just before it / the reported result is flipped, and the flipped detectors and observables must equal the error's; "
+                "the fault must be a non-zero-probability outcome of the noise at the reported target range; tick, gate, args, tags, targets and all coordinates must agree with the circuit; every error of "
+                "the circuit's model (or of the filter, when producible) must have a location; distinct = distinct circuit texts",
+        "trusted_base": [],
+        "partial": ["the reverse tracker that produces the explanations is not modelled: explanations are judged by forward re-simulation (oracle)",
+                    "when reduce_to_one_representative_error is off, completeness of the location list beyond 'at least one' is not checked (the property does not ask for it)"],
+        "assumptions": ["circuits whose detectors are deterministic (the circuit's model exists without allow_gauge_detectors)"],
+    },
 }
